@@ -126,6 +126,34 @@ func genC34(seed uint64, tier string) any {
 			sc.Tasks = append(sc.Tasks, t)
 		}
 	}
+	if r.Chance(1, 8) {
+		// "stall and close": one side's writers fill a small send window while the other side's reader pauses; then
+		// that side half-closes and/or closes. The interesting calls (Write stalled in the transport, CloseWrite,
+		// Close, the blocked Read) all overlap.
+		x := r.Intn(2)
+		sc.Net.Window = []int{64, 512, 4096}[r.Intn(3)]
+		sc.PauseMs = [2]int{}
+		sc.PauseMs[1-x] = []int{8000, 12000}[r.Intn(2)]
+		var tasks []c34Task
+		for _, t := range sc.Tasks {
+			if t.Side != x {
+				tasks = append(tasks, t)
+			}
+		}
+		for w := r.Range(1, 2); w > 0; w-- {
+			t := c34Task{Side: x, Kind: "writer"}
+			for k := r.Range(1, 3); k > 0; k-- {
+				t.Ops = append(t.Ops, c34Op{Op: "write", N: []int{50, 500, 5000, 17000}[r.Intn(4)]})
+			}
+			tasks = append(tasks, t)
+		}
+		m := c34Task{Side: x, Kind: "misc", Ops: []c34Op{{Op: "sleep", DelayMs: []int{10, 300, 2000}[r.Intn(3)]}}}
+		if r.Bool() {
+			m.Ops = append(m.Ops, c34Op{Op: "closewrite"}, c34Op{Op: "sleep", DelayMs: []int{10, 6000}[r.Intn(2)]})
+		}
+		m.Ops = append(m.Ops, c34Op{Op: "close"})
+		sc.Tasks = append(tasks, m)
+	}
 	total := 0
 	for _, t := range sc.Tasks {
 		for _, op := range t.Ops {
